@@ -49,7 +49,10 @@ class CHECK(Check):
             else:
                 lines = [perturb(rng, gen_line(rng, regdefs), regdefs) for _ in range(rng.randint(0, 12))]
                 lines = [l for l in lines if "\n" not in l]
-                yield {"regdefs": regdefs, "kind": "content", "content": "\n".join(lines) + (rng.choice(["\n", "\n", ""]) if lines else "")}
+                content = "\n".join(lines) + (rng.choice(["\n", "\n", ""]) if lines else "")
+                if rng.random() < 0.06:
+                    content = "\ufeff" + content      # a byte-order mark at the start of in-memory content is a character like any other
+                yield {"regdefs": regdefs, "kind": "content", "content": content}
 
     def content_of(self, case, regs, F):
         if case["kind"] == "content":
